@@ -106,6 +106,48 @@ fn check_input(acc: &mut Acc, sub: &str, rank: u64, input: &[u8], elisp: bool, c
             }
         }
     }
+    // a caller that goes on after an error: the next call may start in the middle of a character
+    // that the failed call had begun to read (seed C17-e3); every value of the whole run is checked
+    {
+        let cap = input.len() + 3;
+        let run = |which: u8| -> Result<Option<Vec<u8>>, String> {
+            guard(std::panic::AssertUnwindSafe(|| {
+                fn go<'de, R: lexpr::parse::Read<'de>>(mut p: lexpr::parse::Parser<R>, cap: usize) -> Option<Vec<u8>> {
+                    for _ in 0..cap {
+                        match p.next_value() {
+                            Ok(Some(v)) => {
+                                if let Some(bad) = first_bad_str(&v, 0) {
+                                    std::mem::forget(v);
+                                    return Some(bad);
+                                }
+                            }
+                            Ok(None) => break,
+                            Err(_) => {}
+                        }
+                    }
+                    None
+                }
+                match which {
+                    0 => go(lexpr::parse::Parser::from_slice_custom(input, o), cap),
+                    1 => go(lexpr::parse::Parser::from_reader_custom(input, o), cap),
+                    _ => match std::str::from_utf8(input) {
+                        Ok(s) => go(lexpr::parse::Parser::from_str_custom(s, o), cap),
+                        Err(_) => None,
+                    },
+                }
+            }))
+        };
+        for (which, src) in [(0u8, "slice-loop"), (1, "reader-loop"), (2, "str-loop")] {
+            match run(which) {
+                Err(p) => {
+                    let kind = if p.contains("verif-hooks") { "ill-formed-str-created" } else { "panic" };
+                    acc.violation(sub, kind, &format!("{}:{}", kind, ctx_name), rank, w(src), p, case);
+                }
+                Ok(Some(bad)) => acc.violation(sub, "ill-formed-str-returned", &format!("ill-formed-str-returned:{}", ctx_name), rank, w(src), format!("a str with the bytes {:?} is reachable from a value of the run", show_bytes(&bad)), case),
+                Ok(None) => {}
+            }
+        }
+    }
     // str source when the whole input happens to be UTF-8 (exercises the unchecked StrRead paths)
     if let Ok(s) = std::str::from_utf8(input) {
         match guard(|| lexpr::from_str_custom(s, o)) {
